@@ -4412,6 +4412,23 @@ fn cast_union_input(plan: LogicalPlan, targets: &[ArrowDataType]) -> LogicalPlan
     if fields.iter().zip(targets).all(|(f, t)| &f.data_type == t) {
         return plan;
     }
+    // A nested UNION forwards each input's batches under that input's own column names, so a
+    // projection over it cannot address them by name: cast its inputs instead.
+    if let LogicalPlan::Union(inner) = &plan {
+        let mut out = fields.to_vec();
+        for (field, target) in out.iter_mut().zip(targets) {
+            field.data_type = target.clone();
+        }
+        return LogicalPlan::Union(crate::planner::UnionNode {
+            inputs: inner
+                .inputs
+                .iter()
+                .map(|input| Arc::new(cast_union_input(input.as_ref().clone(), targets)))
+                .collect(),
+            schema: PlanSchema::new(out),
+            all: inner.all,
+        });
+    }
     // Columns are addressed by name below: leave an input with repeated names alone.
     let mut names: Vec<(&Option<String>, &String)> =
         fields.iter().map(|f| (&f.relation, &f.name)).collect();
